@@ -261,5 +261,22 @@ pub fn for_each_case<F: Fn(&Case) + Sync>(rep: &Report, thorough: bool, f: F) {
         let samples = vec![("ref#0".to_string(), vec![("c".to_string(), r.clone())]), ("s1#0".to_string(), orphans)];
         big.push(Case { id: format!("orphans{n}"), samples, cfg, edits: format!("{n} contigs shorter than k in one sample") });
     }
+    // orphans that are long enough for their raw-group packs to be stored COMPRESSED (k = 31: contigs of
+    // 24..30 bases have no k-mer), few enough per group that the pack is written by finalize's partial-pack path
+    for (oi, n) in [330usize, 900].iter().enumerate() {
+        if oi == 1 && !thorough { continue; }
+        let cfg = Cfg { k: 31, segment_size: 200, min_match: 20, threads: 2, ..Cfg::default() };
+        let mut rng = Rng::new(seed.wrapping_add(4242));
+        let r = rng.bases(400);
+        let unit = rng.bases(30);
+        let mut orphans: Contigs = Vec::new();
+        for i in 0..*n {
+            let mut c = unit[..24 + i % 7].to_vec();
+            c[i % 20] = (c[i % 20] + 1 + (i / 20) as u8 % 3) & 3; // similar but distinct -> compressible packs
+            orphans.push((format!("short{i}"), c));
+        }
+        let samples = vec![("ref#0".to_string(), vec![("c".to_string(), r.clone())]), ("s1#0".to_string(), orphans)];
+        big.push(Case { id: format!("compressible_orphans{n}"), samples, cfg, edits: format!("{n} contigs of 24-30 bases with k=31 in one sample") });
+    }
     par_for(big.len(), ncpu().min(8), |i| if case_selected(&big[i].id) { f(&big[i]) });
 }
